@@ -151,7 +151,7 @@ Qed.
 
 Lemma PV_action : forall s0 R s a, PV s0 R s -> PV s0 R (sdo_action fixed_cfg s a).
 Proof.
-  intros s0 R s a H. destruct a as [ub cb|fd cond ub cb|sig ub cb|id|e|sig|]; cbn [sdo_action]; try exact H.
+  intros s0 R s a H. destruct a as [ub cb|fd cond ub cb|sig ub cb|id|e|sig| |]; cbn [sdo_action]; try exact H.
   - pose proof (PV_evloop_io s0 R s fd cond (snext s) H) as H1.
     destruct (evloop_io fixed_cfg s fd cond (snext s)) as [s1 i]. cbn [fst] in H1. exact H1.
   - apply PV_scancel. exact H.
@@ -241,7 +241,7 @@ Qed.
 
 Lemma sext_action : forall s a, sext not_io_fire s (sdo_action fixed_cfg s a).
 Proof.
-  intros s a. destruct a as [ub cb|fd cond ub cb|sig ub cb|id|e|sig|]; cbn [sdo_action]; try (apply sext_same; reflexivity).
+  intros s a. destruct a as [ub cb|fd cond ub cb|sig ub cb|id|e|sig| |]; cbn [sdo_action]; try (apply sext_same; reflexivity).
   - unfold evloop_io. destruct (find_free (slots s) 0); apply sext_same; reflexivity.
   - apply sext_scancel.
   - destruct (is_watched s sig); apply sext_same; reflexivity.
@@ -388,7 +388,7 @@ Hypothesis env_ok : env_fds_ok.
 
 Lemma TW_action : forall s a, TW s -> fds_ok a -> TW (sdo_action fixed_cfg s a).
 Proof.
-  intros s a H Ha. destruct a as [ub cb|fd cond ub cb|sig ub cb|id|e|sig|].
+  intros s a H Ha. destruct a as [ub cb|fd cond ub cb|sig ub cb|id|e|sig| |].
   - eapply TW_same; [exact H|reflexivity|reflexivity|cbn; lia].
   - apply TW_io; assumption.
   - eapply TW_same; [exact H|reflexivity|reflexivity|cbn; lia].
@@ -396,6 +396,7 @@ Proof.
   - eapply TW_same; [exact H|reflexivity|reflexivity|cbn; lia].
   - cbn [sdo_action]. destruct (is_watched s sig); [eapply TW_same; [exact H|reflexivity|reflexivity|cbn; lia]|exact H].
   - exact H.
+  - eapply TW_same; [exact H|reflexivity|reflexivity|cbn; lia].
 Qed.
 
 Lemma TW_actions : forall l s, TW s -> Forall fds_ok l -> TW (sdo_actions fixed_cfg s l).
@@ -466,9 +467,9 @@ Qed.
 Lemma TW_before_poll : forall sleep s, TW s -> TW (before_poll sleep s).
 Proof. intros sleep s H. eapply TW_same; [exact H|reflexivity|reflexivity|cbn; lia]. Qed.
 
-Lemma TW_stick : forall fuel sleep s s', TW s -> stick fixed_cfg env fuel sleep s = Some s' -> TW s'.
+Lemma TW_iteration : forall fuel sleep s s', TW s -> iteration fixed_cfg env fuel sleep s = Some s' -> TW s'.
 Proof.
-  intros fuel sleep s s' H Hs. unfold stick in Hs. fold (before_poll sleep s) in Hs.
+  intros fuel sleep s s' H Hs. unfold iteration in Hs. fold (before_poll sleep s) in Hs. cbn [stop_early fixed_cfg andb] in Hs.
   destruct (ppoll (before_poll sleep s)) as [ret s2] eqn:Ep.
   pose proof (TW_ppoll _ _ _ (TW_before_poll sleep s H) Ep) as H2.
   pose proof (TW_invoke_laters s2 H2) as H3.
@@ -476,6 +477,21 @@ Proof.
   destruct ((ret <? 0) && ((if errno_late fixed_cfg then errno (invoke_laters fixed_cfg env s2) else errno s2) =? EINTR)).
   - unfold dispatch_signals in Hs. eapply TW_dispatch_sigs; [|exact Hs]. eapply TW_same; [exact H3|reflexivity|reflexivity|cbn; lia].
   - inversion Hs; subst. exact H3.
+Qed.
+
+Lemma TW_stick : forall fuel sleep s s', TW s -> stick fixed_cfg env fuel sleep s = Some s' -> TW s'.
+Proof.
+  intros fuel sleep s s' H Hs. unfold stick in Hs. eapply TW_iteration; [|exact Hs].
+  eapply TW_same; [exact H|reflexivity|reflexivity|cbn; lia].
+Qed.
+
+Lemma TW_run_passes : forall fuel k s s', TW s -> run_passes fixed_cfg env fuel k s = Some s' -> TW s'.
+Proof.
+  induction k as [|k IH]; intros s s' H Hs; cbn [run_passes] in Hs; [inversion Hs; subst; exact H|].
+  destruct (negb (running s)); [inversion Hs; subst; exact H|].
+  destruct (iteration fixed_cfg env fuel true (if Nat.eqb k 0 then up_running s false else s)) as [s2|] eqn:E; [|discriminate].
+  eapply IH; [|exact Hs]. eapply TW_iteration; [|exact E].
+  destruct (Nat.eqb k 0); [eapply TW_same; [exact H|reflexivity|reflexivity|cbn; lia]|exact H].
 Qed.
 
 Definition op_fds_ok (o : sop) : Prop := match o with SAct a => fds_ok a | _ => True end.
@@ -496,11 +512,12 @@ Proof.
     - inversion Ho as [|? ? Ho1 Hor]; subst. cbn [fold_left] in Hf.
       destruct (sdo_op fixed_cfg env fuel (Some s) o) as [s1|] eqn:E; [|rewrite fold_sdo_op_none in Hf; discriminate].
       eapply IH; [exact Hor| |exact Hf].
-      destruct o as [a|sl|fd rv|sg]; cbn [sdo_op] in E.
+      destruct o as [a|sl|fd rv|sg|rk]; cbn [sdo_op] in E.
       + inversion E; subst. apply TW_action; assumption.
       + eapply TW_stick; eassumption.
       + inversion E; subst. eapply TW_same; [exact H|reflexivity|reflexivity|cbn; lia].
-      + inversion E; subst. eapply TW_same; [exact H|reflexivity|reflexivity|cbn; lia]. }
+      + inversion E; subst. eapply TW_same; [exact H|reflexivity|reflexivity|cbn; lia].
+      + eapply TW_run_passes; [|exact E]. eapply TW_same; [exact H|reflexivity|reflexivity|cbn; lia]. }
   intros Hf. eapply G; [exact Hops|apply TW_sst0|exact Hf].
 Qed.
 
@@ -509,11 +526,11 @@ Qed.
    returned, with exactly the conditions ppoll reported for that watch's descriptor *)
 Theorem io_exact_iteration : forall fuel sleep s s' ret s2, TW s ->
   ppoll (before_poll sleep s) = (ret, s2) -> 0 < ret ->
-  stick fixed_cfg env fuel sleep s = Some s' ->
+  iteration fixed_cfg env fuel sleep s = Some s' ->
   sext (io_exact s2 (ready s)) (invoke_laters fixed_cfg env s2) s'.
 Proof.
   intros fuel sleep s s' ret s2 H Ep Hr Hs.
-  unfold stick in Hs. fold (before_poll sleep s) in Hs. rewrite Ep in Hs.
+  unfold iteration in Hs. fold (before_poll sleep s) in Hs. rewrite Ep in Hs. cbn [stop_early fixed_cfg andb] in Hs.
   assert (E0 : (0 <? ret) = true) by (apply Z.ltb_lt; exact Hr). rewrite E0 in Hs.
   destruct (PV_after_ppoll _ _ _ (TW_before_poll sleep s H) Ep) as [Hpv _].
   change (ready (before_poll sleep s)) with (ready s) in Hpv.
